@@ -213,6 +213,8 @@ def run_check(pid, tier, seed, t0):
     # steps 4 + 5
     ctx = {"seed": seed, "tier": tier, "thorough": thorough, "property": pid}
     res = prop.run(ctx)
+    from harness import proto as _proto
+    run_samples = _proto.take_samples()
     disagreements = res.get("disagreements", [])
     violations = [v for v in res.get("violations", []) if v.get("property", pid) == pid]
     if disagreements and not stale_driver and not any(g.get("status") == "untranslatable" for g in gen.values()):
@@ -268,7 +270,7 @@ def run_check(pid, tier, seed, t0):
         "rule": res.get("rule", ""),
         "exhaustive": bool(res.get("exhaustive", False)),
         "samples": ([{"obligation": o, "axioms": axioms.get(o, axioms.get("Hera." + o))} for o in obligations[:6]]
-                    + list(res.get("samples", []))[:6]),
+                    + (run_samples[:10] or list(res.get("samples", []))[:6])),
         "obligation_names": obligations,
         "undischarged": [o for o in obligations if o not in discharged],
         "proof_side_problems": broken,
